@@ -458,3 +458,33 @@ func (st *State) setHeapRec(key string, val Term) {
 	}
 	st.setHeap(key, val)
 }
+
+// useLemmas instantiates the lemmas named in `use` clauses: their requires become obligations, their ensures assumptions.
+func (ex *Exec) useLemmas(st *State, env *Env, prefix string) {
+	for i, u := range ex.spec.Uses {
+		var lem *FnSpec
+		if ex.cf != nil {
+			lem = ex.cf.Fns["lemma "+u.Op]
+		}
+		if lem == nil {
+			sfail("use: unknown lemma %s", u.Op)
+		}
+		if len(lem.Params) != len(u.Args) {
+			sfail("use: lemma %s takes %d arguments", u.Op, len(lem.Params))
+		}
+		lenv := &Env{ex: ex, cur: env.cur, old: env.old, sink: st, vars: map[string]TV{}, cf: ex.cf}
+		for j, p := range lem.Params {
+			lenv.vars[p] = env.eval(u.Args[j])
+		}
+		for j, r := range lem.Requires {
+			g := lenv.evalBool(r.Expr)
+			ex.obligs = append(ex.obligs, Oblig{Name: fmt.Sprintf("%suse%d.%s.pre%d", prefix, i, u.Op, j), Kind: "requires",
+				Asm: st.asm[:len(st.asm):len(st.asm)], Goal: g, Desc: "lemma " + u.Op + " requires " + r.Src})
+			st.assume(g)
+		}
+		for _, e := range lem.Ensures {
+			st.assume(lenv.evalBool(e.Expr))
+		}
+		ex.usedContracts["lemma "+shortPkg(ex.pkgPath)+"."+u.Op] = lem
+	}
+}
